@@ -119,6 +119,13 @@ def build():
              ("exponent_trailing_digit_separator", True)], ["format", "pow2"], ["sep", "mixedsep", "component"])
         add2("sepmix%d_%d_x%d_ic" % (r, b, xr), base + [("internal_digit_separator", True), ("consecutive_digit_separator", True)], ["format", "pow2"],
              ["sep", "mixedsep", "uniform"])
+    # ---- appended in round 3: flag pairs that the random selection above happens to miss but that interact in the writers
+    # (S-C08-a needs required_exponent_notation AND required_exponent_sign: an exponent of 0 written in exponent notation)
+    for (a, b) in (("required_exponent_notation", "required_exponent_sign"), ("required_exponent_notation", "no_positive_exponent_sign"),
+                   ("required_exponent_notation", "no_exponent_without_fraction"), ("required_mantissa_sign", "required_exponent_sign"),
+                   ("required_exponent_notation", "required_mantissa_sign")):
+        F.append({"id": len(F), "name": "syn_pair_%s__%s" % (a, b), "calls": [[a, True], [b, True]], "req": ["format"], "types": "core",
+                  "tags": ["syntax", "pair"]})
     return F
 
 if __name__ == "__main__":
